@@ -6,9 +6,10 @@ history prefix and enough fuel, the VM model (`VM.runText`: model of LoadExpress
 on the model of the generator) and the reference evaluator (`Ref.runProgram`) report the same
 outcome class, printed value and trace.
 
-What is proved here (all unbounded in the size and nesting of the program, about the very
-functions `Model/Gen.lean`'s `compile` calls to lay out code — the generator has no other
-jump arithmetic):
+What is proved here (all unbounded in the size and nesting of the program).
+
+Layout half — about the very functions `Model/Gen.lean`'s `compile` calls to lay out code
+(the generator has no other jump arithmetic):
 
 * `gen_begin_pops_between`      — `GenerateBegin` puts exactly one `pop` between statements;
 * `gen_cond_targets`            — in the code of a `cond` with any number of arms, the
@@ -21,11 +22,39 @@ jump arithmetic):
                                   to the test, the exit branch, the back jump, and the
                                   `break`/`continue` offsets stored in the loop record.
 
-`compile_correct_partial` (below) says what is missing for the semantic statement.
+Execution half (lemmas in `Proofs/Sim*.lean`) — about `VM.runLoop`/`VM.exec`/`VM.run`/`VM.runText`
+and `Ref.eval`/`Ref.runProgram` themselves:
+
+* `vm_runLoop_step`, `vm_simple_instructions` — one turn of the `Run` loop; `push pop dup jump
+                                  goto branch` as state transformers (all cases);
+* `segment_lemma_F0c`           — the code of an F0c expression, embedded at any offset of any
+                                  function, pushes exactly the value of the reference evaluator
+                                  within `code.length` instructions and changes nothing else;
+* `F0c_total`                   — `compile` and `Ref.eval` are total on F0c (explicit bounds);
+* `compile_correct_F0c`         — for F0c programs, with explicit fuel on both sides,
+                                  `obsOfVM (runText …) = obsOfRef (runProgram …)` and it is a value;
+* `compile_correct_on_F0c`      — `CompileCorrect` restricted to F0c, in its own vocabulary.
+
+* `segment_lemma_Fv`            — Stages C/D: the same for Fv = F0c + symbols + `def` + `set` +
+                                  `newScope` + `letseq` + `let` (distinct names), with the
+                                  simulation relation between VM scopes / linear stack and
+                                  reference frames / static chain; values and errors;
+* `compile_correct_on_Fv`       — `CompileCorrect` restricted to Fv (values, errors, traces).
+
+* `segment_lemma_Fc`            — Stage D: the same for Fc = Fv (binder names not builtin names) +
+                                  calls of first-order builtins; operands are compiled at run time
+                                  and evaluated in nested `Run`s;
+* `compile_correct_on_Fc`       — `CompileCorrect` restricted to Fc.
+
+`compile_correct_partial` (below) says what is proved of the semantic statement and names
+the unproved remainder (`CompileCorrectOutsideProved`).
 -/
 import ZygoVerif.Model.Gen
 import ZygoVerif.Model.VM
 import ZygoVerif.Spec.RefEval
+import ZygoVerif.Proofs.SimF0cTop
+import ZygoVerif.Proofs.SimFvTop
+import ZygoVerif.Proofs.SimFcTop
 namespace ZygoVerif.C02
 open ZygoVerif.Core ZygoVerif.VM
 
@@ -223,28 +252,507 @@ theorem gen_for_layout (l : Nat) (init test incr body : List Instr) :
 example : (asmFor 0 [Instr.popUntilMark 0] [Instr.push (.bool false)] [Instr.popUntilMark 0] [Instr.popUntilMark 0]).2
     = (15, 6) := by decide
 
-/-! ## What is missing for `CompileCorrect` -/
+/-! ## The execution half (Proofs/Sim*.lean)
 
-/-- `compile_correct_partial`: the layout half of the simulation argument for the fragment
-F0/F1 (literals, symbols, builtin calls, `begin def set cond and or let letseq newScope for`):
-every jump the generator emits for these forms lands on the boundary the reference
-semantics prescribes (next arm / behind the form / loop test, increment and exit), and
-`begin` pops exactly between statements.
+Stage A — machine lemmas: one turn of the `Run` loop, and each simple instruction as a state
+transformer. Stage B — the segment lemma and the top-level statement for the pure control
+fragment `F0c` (literals, non-empty `begin`, `cond` with any number of arms, `and`/`or` of any
+arity, nested arbitrarily), for programs of every size and nesting. -/
 
-MISSING (not proved; held by the 3-way `eval` correspondence on every run):
-* the execution half — a segment lemma "the code of a sub-expression embedded at offset k
-  runs as when run alone" over `VM.run`, and from it `CompileCorrect` for F0 (values of
-  `cond/and/or/begin/let`), F1 (`for`, `break`, `continue`), F2 (`fn`/`defn`, calls, varargs,
-  recursion: needs the scope/closure simulation relation shared with C03) and F3 (self tail
-  calls, `map`/`apply`, lazy parameters);
-* the link between `compile`'s monadic plumbing and the `asm*` functions is by definition
-  (`compile` calls them), not a separate theorem. -/
+open ZygoVerif.Sim
+
+/-- One turn of the `Run` loop: with the program counter on instruction `i` of a compiled
+function (`code = pre ++ i :: post`, `pc = pre.length`), if `i` executes without fault into
+`s'`, the loop continues from `s'` with one unit of fuel less — whatever control state the
+enclosing `Run` captured. -/
+theorem vm_runLoop_step (s s' : St) (pre : List Instr) (i : Instr) (post : List Instr)
+    (huser : (fnOf s s.curfunc).user = false) (hcode : (fnOf s s.curfunc).code = pre ++ i :: post)
+    (hpc : s.pc = (pre.length : Int)) (fuel : Nat) (st : CtlState)
+    (hx : (exec fuel i).run s = (.ok (), s')) :
+    (runLoop (fuel + 1) st).run s = (runLoop fuel st).run s' :=
+  runLoop_step ⟨huser, hcode, hpc⟩ fuel st hx
+
+example : ∃ s s' pre i post fuel, (fnOf s s.curfunc).user = false ∧ (fnOf s s.curfunc).code = pre ++ i :: post
+    ∧ s.pc = (pre.length : Int) ∧ (exec fuel i).run s = (.ok (), s') :=
+  ⟨{ initSt with fns := [{ code := [.push .nil] }] }, _, [], .push .nil, [], 1, rfl, rfl, rfl, exec_push 0 .nil _⟩
+
+/-- The simple instructions as state transformers (all cases of `Execute`, any fuel `≥ 1`):
+`push`, `pop` (underflow ignored, nil element = host panic), `dup`, `jump`, `goto`
+(target outside `[0, size]` = error), `branch` (pops; taken iff direction = truthiness). -/
+theorem vm_simple_instructions (f : Nat) (s : St) :
+    (∀ v, (exec (f + 1) (.push v)).run s = (.ok (), { s with data := some v :: s.data, pc := s.pc + 1 }))
+    ∧ ((exec (f + 1) .pop).run s = match s.data with
+        | [] => (.ok (), { s with pc := s.pc + 1 })
+        | none :: _ => (.error .panic, s)
+        | some _ :: rest => (.ok (), { s with data := rest, pc := s.pc + 1 }))
+    ∧ ((exec (f + 1) .dup).run s = match s.data with
+        | [] => (.error .err, s)
+        | none :: _ => (.error .panic, s)
+        | some v :: _ => (.ok (), { s with data := some v :: s.data, pc := s.pc + 1 }))
+    ∧ (∀ off, (exec (f + 1) (.jump off)).run s =
+        if s.pc + off < 0 ∨ s.pc + off > curSize s then (.error .err, s) else (.ok (), { s with pc := s.pc + off }))
+    ∧ (∀ loc : Nat, (exec (f + 1) (.goto loc)).run s =
+        if (loc : Int) < 0 ∨ (loc : Int) > curSize s then (.error .err, s) else (.ok (), { s with pc := loc }))
+    ∧ (∀ dir off, (exec (f + 1) (.branch dir off)).run s = match s.data with
+        | [] => (.error .err, s)
+        | none :: _ => (.error .panic, s)
+        | some v :: rest =>
+          if dir = truthy v then
+            (if s.pc + off < 0 ∨ s.pc + off > curSize s then (.error .err, { s with data := rest })
+             else (.ok (), { s with data := rest, pc := s.pc + off }))
+          else (.ok (), { s with data := rest, pc := s.pc + 1 })) :=
+  ⟨fun v => exec_push f v s, exec_pop f s, exec_dup f s, fun off => exec_jump f off s,
+   fun loc => exec_goto f loc s, fun dir off => exec_branch f dir off s⟩
+
+/-- **Segment lemma for F0c** (statement spelled out; `Sim.segment_F0c` is the same with the
+vocabulary `Seg`/`Reach`/`Pushes`). For every F0c expression `e`, whatever generator context and
+state it is compiled in, and whatever value `v` the reference evaluator returns for it (any
+fuel, environment and state): the reference state is unchanged, and in every VM state whose
+current function is compiled code `pre ++ code ++ post` with `pc = pre.length`, the run loop
+— inside any `Run`, with any remaining fuel `≥ 1` — executes at most `code.length`
+instructions and arrives at `pc = pre.length + code.length` with exactly one more value, `v`,
+on the data stack and everything else unchanged. -/
+theorem segment_lemma_F0c (e : Expr) (he : F0c e = true) (isFn : Nat → Bool) (c : Ctx) (gs gs' : GS)
+    (code : List Instr) (t : Bool) (hc : (compile isFn c e).run gs = .ok ((code, t), gs'))
+    (n env : Nat) (rs rs' : Ref.St) (v : Val) (hr : Ref.eval n e env rs = .ok v rs') :
+    rs' = rs ∧
+    ∀ (s : St) (pre post : List Instr), (fnOf s s.curfunc).user = false →
+      (fnOf s s.curfunc).code = pre ++ code ++ post → s.pc = (pre.length : Int) →
+      ∃ k, k ≤ code.length ∧ ∀ fuel, 1 ≤ fuel → ∀ st,
+        (runLoop (fuel + k) st).run s
+          = (runLoop fuel st).run { s with pc := s.pc + code.length, data := some v :: s.data } := by
+  obtain ⟨h1, h2⟩ := segment_F0c e he isFn c gs code t gs' hc n env rs v rs' hr
+  exact ⟨h1, fun s pre post hu hcd hpc => h2 s pre post ⟨hu, hcd, hpc⟩⟩
+
+/-- `compile` is total on F0c and does not touch the generator state; the code has at most
+`3 * esize e` instructions; the reference evaluator is total on F0c with fuel `esize e`. -/
+theorem F0c_total (e : Expr) (he : F0c e = true) :
+    (∀ isFn c gs, ∃ code, (compile isFn c e).run gs = .ok ((code, c.tail), gs) ∧ code.length ≤ 3 * esize e)
+    ∧ (∀ n, esize e ≤ n → ∀ env rs, ∃ v, Ref.eval n e env rs = .ok v rs) := by
+  refine ⟨fun isFn c gs => ?_, refEval_total e he⟩
+  obtain ⟨code, h⟩ := compile_total e he isFn c gs
+  exact ⟨code, h, compile_length_F0c e he isFn c gs _ h⟩
+
+/-- The property restricted to a class `D` of programs (same shape as `CompileCorrect`). -/
+def CompileCorrectOn (D : List Expr → Prop) : Prop :=
+  ∀ (p : List Expr), D p → Ref.wfList {} p = true →
+    ∀ fuel o, obsOfRef (Ref.runProgram fuel p Ref.initSt).1 = some o →
+      ∃ fuel', obsOfVM (VM.runText fuel' p VM.initSt).1 = some o
+
+theorem compileCorrect_iff_on_all : CompileCorrect ↔ CompileCorrectOn (fun _ => True) :=
+  ⟨fun h p _ => h p, fun h p => h p trivial⟩
+
+/-- **F0c programs, explicit fuel.** For every program text whose top-level forms are in F0c
+(any number of forms, any nesting): with reference fuel `≥ esizeList p` and VM fuel
+`≥ 3 * esizeList p + 3`, both sides terminate and the VM model reports exactly what the
+reference evaluator reports — class `ok`, the same printed value, the empty trace. -/
+theorem compile_correct_F0c (p : List Expr) (hp : F0cList p = true)
+    (fuel fuel' : Nat) (hf : esizeList p ≤ fuel) (hf' : 3 * esizeList p + 3 ≤ fuel') :
+    obsOfVM (VM.runText fuel' p VM.initSt).1 = obsOfRef (Ref.runProgram fuel p Ref.initSt).1
+    ∧ ∃ v, obsOfRef (Ref.runProgram fuel p Ref.initSt).1 = some (.ok v []) := by
+  cases p with
+  | nil =>
+    obtain ⟨m, rfl⟩ : ∃ m, fuel = m + 1 := ⟨fuel - 1, by rw [esizeList] at hf; omega⟩
+    rw [runText_nil initSt atRest_initSt rfl fuel' (by omega), refProgram_nil]
+    exact ⟨rfl, _, rfl⟩
+  | cons e es =>
+    obtain ⟨v, hv⟩ := refBegin_total (e :: es) (by simp) hp fuel hf 0 { Ref.initSt with trace := [] }
+    obtain ⟨code, hrun⟩ := runText_F0c initSt (e :: es) (by simp) hp atRest_initSt fuel 0 _ v _ hv fuel' hf'
+    rw [hrun, refProgram_ok fuel (e :: es) Ref.initSt v hv]
+    exact ⟨rfl, _, rfl⟩
+
+/-- **`CompileCorrect` for the fragment F0c**, in the vocabulary of the full statement:
+whenever the reference evaluator (with whatever fuel) reports an outcome for an F0c
+program, the VM model reports the same outcome. -/
+theorem compile_correct_on_F0c : CompileCorrectOn (fun p => F0cList p = true) := by
+  intro p hp _ fuel o ho
+  refine ⟨3 * esizeList p + 3, ?_⟩
+  cases p with
+  | nil =>
+    rw [runText_nil initSt atRest_initSt rfl _ (by omega)]
+    cases fuel with
+    | zero => simp [Ref.runProgram, Ref.evalBegin, obsOfRef] at ho
+    | succ m =>
+      rw [refProgram_nil] at ho
+      exact ho
+  | cons e es =>
+    rcases refBegin_noFail (e :: es) (by simp) hp fuel 0 { Ref.initSt with trace := [] } with ⟨v, hv⟩ | hv
+    · obtain ⟨code, hrun⟩ := runText_F0c initSt (e :: es) (by simp) hp atRest_initSt fuel 0 _ v _ hv _ (Nat.le_refl _)
+      rw [refProgram_ok fuel (e :: es) Ref.initSt v hv] at ho
+      rw [hrun]
+      exact ho
+    · have href : Ref.runProgram fuel (e :: es) Ref.initSt = (.timeout, Ref.initSt) := by
+        unfold Ref.runProgram
+        simp only [hv]
+      rw [href] at ho
+      cases ho
+
+/-! ### Non-vacuity: a concrete nested F0c program -/
+
+/-- `(begin 1 "x") (cond (and 1 (or false 0)) (begin 1 2) (and) (cond () 5 (or () 7 8)) 9)` -/
+def demoF0c : List Expr :=
+  [.begin_ [.int 1, .str "x"],
+   .cond [(.and_ [.int 1, .or_ [.bool false, .int 0]], .begin_ [.int 1, .int 2]),
+          (.and_ [], .cond [(.nilLit, .int 5)] (.or_ [.nilLit, .int 7, .int 8]))] (.int 9)]
+
+example : F0cList demoF0c = true := by decide
+example : esizeList demoF0c = 46 := by decide
+
+/-- the reference evaluator computes 7 for it (first arm's test is falsy: `(or false 0)` is 0;
+second arm's test `(and)` is true; inner `cond` falls to its default; `(or () 7 8)` is 7) -/
+theorem demoF0c_ref (rs : Ref.St) : Ref.evalBegin 12 demoF0c 0 rs = .ok (intOfLit 7) rs := by
+  have tr7 : truthy (intOfLit 7) = true := by decide
+  have tr1 : truthy (intOfLit 1) = true := by decide
+  have tr0 : truthy (intOfLit 0) = false := by decide
+  have trn : truthy .nil = false := rfl
+  have trb : ∀ b : Bool, truthy (.bool b) = b := fun _ => rfl
+  simp only [demoF0c, Ref.evalBegin, Ref.eval, Ref.evalCond, Ref.evalAndOr, tr7, tr1, trn, trb]
+  simp [tr0]
+
+/-- … and so does the VM model, by `runText_F0c` (hypotheses of the segment lemma and of the
+top-level theorem are satisfiable; the harness run of the same text prints `7`). -/
+example : ∃ code, VM.runText 141 demoF0c VM.initSt
+    = (.done "ok" (pr VM.initSt.heap (intOfLit 7)) [] (depths VM.initSt), afterText VM.initSt code, true) :=
+  runText_F0c VM.initSt demoF0c (by decide) (by decide) atRest_initSt 12 0 Ref.initSt _ _ (demoF0c_ref _) 141 (by decide)
+
+example : obsOfVM (VM.runText 141 demoF0c VM.initSt).1 = obsOfRef (Ref.runProgram 46 demoF0c Ref.initSt).1 :=
+  (compile_correct_F0c demoF0c (by decide) 46 141 (by decide) (by decide)).1
+
+/-! ## Stages C and D — variables and scopes: symbols, `def`, `set`, `newScope`, `letseq`, `let`
+(fragment Fv ⊇ F0c)
+
+`Fv` = literals, symbol reference, `def`, `set`, non-empty `begin`, `cond`, `and`, `or`,
+non-empty `newScope`, `letseq`, and `let` with pairwise distinct names, nested arbitrarily.
+(`let` binds its names by popping, the last name first; the reference evaluator binds the first
+name first; with a repeated name the two differ — `(let [a 1 a 2] a)` is 1 on the VM and in the
+implementation, 2 in the reference evaluator — so such a `let` is outside the fragment.)
+
+Expressions now have effects (on the scopes) and can fail (unbound symbol, re-binding with a
+different type). The segment lemma carries the simulation relation `Sim.Rel` between VM state
+and reference state: scope table and frame table hold the same bindings index by index, the
+linear scope stack is the static chain of the current environment, heaps and traces agree. -/
+
+/-- **Segment lemma for Fv**, spelled out. From related states, the VM standing on the
+first instruction of the code of `e` (embedded anywhere in a compiled function):
+* reference value `v`, new state `rs'` ⇒ within `code.length` instructions the VM arrives just
+  behind the code with exactly one more value `v` on the data stack, in the same function, and
+  its state is related to `rs'` (same effects on every scope);
+* reference error ⇒ within `code.length` instructions the enclosing `Run` returns a script
+  error, whatever control state it captured, and the trace is the reference trace;
+* the reference evaluator never yields `break`/`continue` for `e`. -/
+theorem segment_lemma_Fv (e : Expr) (he : Fv e = true) (isFn : Nat → Bool) (c : Ctx) (gs gs' : GS)
+    (code : List Instr) (t : Bool) (hc : (compile isFn c e).run gs = .ok ((code, t), gs'))
+    (s : St) (rs : Ref.St) (env : Nat) (pre post : List Instr) (hrel : Rel s rs env)
+    (huser : (fnOf s s.curfunc).user = false) (hcode : (fnOf s s.curfunc).code = pre ++ code ++ post)
+    (hpc : s.pc = (pre.length : Int)) (n : Nat) :
+    match Ref.eval n e env rs with
+    | .ok v rs' => ∃ s', Rel s' rs' env ∧ fnOf s' s'.curfunc = fnOf s s.curfunc
+        ∧ s'.pc = s.pc + (code.length : Int) ∧ s'.data = some v :: s.data
+        ∧ ∃ k, k ≤ code.length ∧ ∀ fuel, 1 ≤ fuel → ∀ st, (runLoop (fuel + k) st).run s = (runLoop fuel st).run s'
+    | .err rs' => ∃ k, k ≤ code.length ∧ ∀ fuel, 1 ≤ fuel → ∀ st,
+        ∃ sf, (runLoop (fuel + k) st).run s = (.error .err, sf) ∧ sf.trace = rs'.trace
+    | .timeout => True
+    | .brk _ _ => False
+    | .cont _ _ => False := by
+  have h := segment_Fv e he isFn c gs code t gs' hc s rs env pre post hrel ⟨huser, hcode, hpc⟩ n
+  cases hres : Ref.eval n e env rs with
+  | ok v rs' =>
+    rw [hres] at h
+    obtain ⟨s', r, l, rel, -⟩ := h
+    exact ⟨s', rel, l.fn, l.pc, l.data, r⟩
+  | err rs' => rw [hres] at h; exact h
+  | timeout => trivial
+  | brk l rs' => rw [hres] at h; exact h
+  | cont l rs' => rw [hres] at h; exact h
+
+/-- the initial states of the two sides are related -/
+theorem rel_init : Rel VM.initSt Ref.initSt 0 := rel_initSt
+
+/-- **`CompileCorrect` for the fragment Fv**: whenever the reference evaluator reports an
+outcome — a value or an error, with its trace — for a program whose top-level forms are in Fv,
+the VM model (generator + VM, `LoadExpressions` + `Run`) reports the same outcome. -/
+theorem compile_correct_on_Fv : CompileCorrectOn (fun p => FvList p = true) := by
+  intro p hp hwf fuel o ho
+  cases p with
+  | nil => exact compile_correct_on_F0c [] rfl hwf fuel o ho
+  | cons e es =>
+    obtain ⟨N, hN⟩ := runText_Fv VM.initSt Ref.initSt (e :: es) (by simp) hp atRest_initSt rel_initSt fuel
+    refine ⟨N, ?_⟩
+    have h := hN N (Nat.le_refl _)
+    unfold Ref.runProgram at ho
+    cases hres : Ref.evalBegin fuel (e :: es) 0 { Ref.initSt with trace := [] } with
+    | ok v rs' =>
+      rw [hres] at h
+      simp only [hres] at ho
+      obtain ⟨sf, d, hout, -⟩ := h
+      rw [hout]; exact ho
+    | err rs' =>
+      rw [hres] at h
+      simp only [hres] at ho
+      obtain ⟨sf, d, hout⟩ := h
+      rw [hout]; exact ho
+    | timeout => simp only [hres] at ho; cases ho
+    | brk l rs' => rw [hres] at h; exact h.elim
+    | cont l rs' => rw [hres] at h; exact h.elim
+
+/-! ### Non-vacuity: concrete Fv programs, one that yields a value, one that fails -/
+
+/-- `(def a 1) (set a (cond (and a (or false 0)) 5 a)) (def b "x") (cond b (set c a) 9)` -/
+def demoFv : List Expr :=
+  [.def_ "a" (.int 1),
+   .set_ "a" (.cond [(.and_ [.sym "a", .or_ [.bool false, .int 0]], .int 5)] (.sym "a")),
+   .def_ "b" (.str "x"),
+   .cond [(.sym "b", .set_ "c" (.sym "a"))] (.int 9)]
+
+/-- `(def a 1) (let [b a c 2] (letseq [d b d (newScope (set a c) d)] (cond d a 0)))`: scopes -/
+def demoFvLet : List Expr :=
+  [.def_ "a" (.int 1),
+   .let_ false [("b", .sym "a"), ("c", .int 2)]
+     [.let_ true [("d", .sym "b"), ("d", .newScope [.set_ "a" (.sym "c"), .sym "d"])]
+       [.cond [(.sym "d", .sym "a")] (.int 0)]]]
+
+example : FvList demoFvLet = true := by decide
+
+/-- `(def a 1) (begin (def a "s") 2)`: re-binding `a` with another type is an error -/
+def demoFvErr : List Expr := [.def_ "a" (.int 1), .begin_ [.def_ "a" (.str "s"), .int 2]]
+
+example : FvList demoFv = true := by decide
+example : FvList demoFvErr = true := by decide
+
+/-- class of a reference result: a value, an error, or neither -/
+def refClass : Ref.R Val → Option (Option Val)
+  | .ok v _ => some (some v)
+  | .err _ => some none
+  | _ => none
+
+/-- the reference evaluator computes 1 for `demoFv` … -/
+theorem demoFv_ref : refClass (Ref.evalBegin 14 demoFv 0 { Ref.initSt with trace := [] }) = some (some (intOfLit 1)) := by
+  have tr1 : truthy (intOfLit 1) = true := by decide
+  have tr0 : truthy (intOfLit 0) = false := by decide
+  have trb : ∀ b : Bool, truthy (.bool b) = b := fun _ => rfl
+  have trs : ∀ s : String, truthy (.str s) = true := fun _ => rfl
+  simp [demoFv, Ref.evalBegin, Ref.eval, Ref.evalCond, Ref.evalAndOr, Ref.define, Ref.setVar, Ref.lookup,
+    Ref.lookupIn, Ref.initSt, Ref.assocSet, Ref.globalNames, coreBuiltins, refClass, tr1, tr0, trb,
+    trs, List.lookup]
+
+/-- … and an error for `demoFvErr` -/
+theorem demoFvErr_ref : refClass (Ref.evalBegin 6 demoFvErr 0 { Ref.initSt with trace := [] }) = some none := by
+  simp [demoFvErr, Ref.evalBegin, Ref.eval, Ref.define, Ref.setVar, Ref.initSt, Ref.assocSet, Ref.globalNames,
+    coreBuiltins, rebindOk, tyOf, intOfLit, refClass, List.lookup]
+
+/-- the scoped program: `a` is set to 2 from inside `newScope`, inside `letseq`, inside `let` -/
+theorem demoFvLet_ref :
+    refClass (Ref.evalBegin 12 demoFvLet 0 { Ref.initSt with trace := [] }) = some (some (intOfLit 2)) := by
+  have tr1 : truthy (intOfLit 1) = true := by decide
+  have tyi : ∀ (h : DataHeap) (k : Int), tyOf h (intOfLit k) = some Ty.int := fun _ _ => rfl
+  simp [demoFvLet, Ref.evalBegin, Ref.eval, Ref.evalCond, Ref.evalLetSeq, Ref.evalList, Ref.bindAll, Ref.newFrame,
+    Ref.define, Ref.setVar, Ref.lookup, Ref.lookupIn, Ref.initSt, Ref.assocSet, Ref.globalNames, coreBuiltins,
+    rebindOk, tyi, refClass, tr1, List.lookup]
+
+example : ∃ fuel' o, obsOfRef (Ref.runProgram 12 demoFvLet Ref.initSt).1 = some o
+    ∧ obsOfVM (VM.runText fuel' demoFvLet VM.initSt).1 = some o := by
+  have h := demoFvLet_ref
+  cases hres : Ref.evalBegin 12 demoFvLet 0 { Ref.initSt with trace := [] } with
+  | ok v rs' =>
+    have ho : obsOfRef (Ref.runProgram 12 demoFvLet Ref.initSt).1 = some (.ok (pr rs'.heap v) rs'.trace) := by
+      unfold Ref.runProgram; simp only [hres]; rfl
+    obtain ⟨f, hf⟩ := compile_correct_on_Fv demoFvLet (by decide) (by decide) 12 _ ho
+    exact ⟨f, _, ho, hf⟩
+  | err rs' => rw [hres] at h; simp [refClass] at h
+  | timeout => rw [hres] at h; simp [refClass] at h
+  | brk l rs' => rw [hres] at h; simp [refClass] at h
+  | cont l rs' => rw [hres] at h; simp [refClass] at h
+
+/-- both are instances of `compile_correct_on_Fv` with a real outcome on the reference side -/
+example : ∃ fuel' o, obsOfRef (Ref.runProgram 14 demoFv Ref.initSt).1 = some o
+    ∧ obsOfVM (VM.runText fuel' demoFv VM.initSt).1 = some o := by
+  have h := demoFv_ref
+  cases hres : Ref.evalBegin 14 demoFv 0 { Ref.initSt with trace := [] } with
+  | ok v rs' =>
+    have ho : obsOfRef (Ref.runProgram 14 demoFv Ref.initSt).1 = some (.ok (pr rs'.heap v) rs'.trace) := by
+      unfold Ref.runProgram; simp only [hres]; rfl
+    obtain ⟨f, hf⟩ := compile_correct_on_Fv demoFv (by decide) (by decide) 14 _ ho
+    exact ⟨f, _, ho, hf⟩
+  | err rs' => rw [hres] at h; simp [refClass] at h
+  | timeout => rw [hres] at h; simp [refClass] at h
+  | brk l rs' => rw [hres] at h; simp [refClass] at h
+  | cont l rs' => rw [hres] at h; simp [refClass] at h
+
+example : ∃ fuel' tr, obsOfRef (Ref.runProgram 6 demoFvErr Ref.initSt).1 = some (.err tr)
+    ∧ obsOfVM (VM.runText fuel' demoFvErr VM.initSt).1 = some (.err tr) := by
+  have h := demoFvErr_ref
+  cases hres : Ref.evalBegin 6 demoFvErr 0 { Ref.initSt with trace := [] } with
+  | err rs' =>
+    have ho : obsOfRef (Ref.runProgram 6 demoFvErr Ref.initSt).1 = some (.err rs'.trace) := by
+      unfold Ref.runProgram; simp only [hres]; rfl
+    obtain ⟨f, hf⟩ := compile_correct_on_Fv demoFvErr (by decide) (by decide) 6 _ ho
+    exact ⟨f, _, ho, hf⟩
+  | ok v rs' => rw [hres] at h; simp [refClass] at h
+  | timeout => rw [hres] at h; simp [refClass] at h
+  | brk l rs' => rw [hres] at h; simp [refClass] at h
+  | cont l rs' => rw [hres] at h; simp [refClass] at h
+
+/-! ## Stage D, second half — calls of first-order builtins (fragment Fc)
+
+`Fc` = Fv whose binder names (`def`/`set`/`let`/`letseq`) are not names of first-order builtins,
+plus array literals `[e₁ … eₙ]` with elements in Fc, plus calls `(h a₁ … aₙ)` where `h` is one of
+`+ - * mod < > <= >= == != not cons first rest second list array len append concat aget aset hash
+hget hset trace` and the operands are in Fc. A call is ONE VM instruction (`callExpr`); executing it
+compiles every operand at run time into a fresh function object and runs it in a nested `Run`
+(`EvalCallExpression`/`nested`), then runs the builtin under `CallUserFunction`. The relation
+(`Sim.RelC`) therefore lets the function table grow and the current function be such a helper:
+every closing list on the parent chain of the current function is a suffix of the linear scope
+stack; first-order builtin names are bound in the global frame only. -/
+
+/-- **Segment lemma for Fc**, spelled out (see `Sim.segment_Fc`). -/
+theorem segment_lemma_Fc (e : Expr) (he : Fc e = true) (isFn : Nat → Bool) (c : Ctx) (hfn : c.funcname = "")
+    (gs gs' : GS) (code : List Instr) (t : Bool) (hc : (compile isFn c e).run gs = .ok ((code, t), gs'))
+    (s : St) (rs : Ref.St) (env : Nat) (pre post : List Instr) (hrel : RelC s rs env)
+    (huser : (fnOf s s.curfunc).user = false) (hcode : (fnOf s s.curfunc).code = pre ++ code ++ post)
+    (hpc : s.pc = (pre.length : Int)) (n : Nat) :
+    match Ref.eval n e env rs with
+    | .ok v rs' => ∃ s', RelC s' rs' env ∧ fnOf s' s'.curfunc = fnOf s s.curfunc
+        ∧ s'.pc = s.pc + (code.length : Int) ∧ s'.data = some v :: s.data
+        ∧ s'.linear = s.linear ∧ s'.addr = s.addr ∧ s'.curfunc = s.curfunc
+        ∧ ∃ k m, k ≤ code.length ∧ ∀ fuel, m ≤ fuel → ∀ st, (runLoop (fuel + k) st).run s = (runLoop fuel st).run s'
+    | .err rs' => ∃ k m, k ≤ code.length ∧ ∀ fuel, m ≤ fuel → ∀ st,
+        ∃ sf, (runLoop (fuel + k) st).run s = (.error .err, sf) ∧ sf.trace = rs'.trace
+    | .timeout => True
+    | .brk _ _ => False
+    | .cont _ _ => False := by
+  have h := segment_Fc e he isFn c hfn gs code t gs' hc s rs env pre post hrel ⟨huser, hcode, hpc⟩ n
+  cases hres : Ref.eval n e env rs with
+  | ok v rs' =>
+    rw [hres] at h
+    obtain ⟨s', ⟨m, k, hk, H⟩, l, rel, -, fr⟩ := h
+    exact ⟨s', rel, l.fn, l.pc, l.data, fr.linear, fr.addr, fr.curfunc, k, m, hk, H⟩
+  | err rs' =>
+    rw [hres] at h
+    obtain ⟨k, hk, m, H⟩ := h
+    exact ⟨k, m, hk, H⟩
+  | timeout => trivial
+  | brk l rs' => rw [hres] at h; exact h
+  | cont l rs' => rw [hres] at h; exact h
+
+/-- **`CompileCorrect` for the fragment Fc**: whenever the reference evaluator reports an outcome
+— a value or an error, with its trace of `trace` calls — for a program whose top-level forms are in
+Fc, the VM model reports the same outcome. -/
+theorem compile_correct_on_Fc : CompileCorrectOn (fun p => FcList p = true) := by
+  intro p hp hwf fuel o ho
+  cases p with
+  | nil => exact compile_correct_on_F0c [] rfl hwf fuel o ho
+  | cons e es =>
+    obtain ⟨N, hN⟩ := runText_Fc VM.initSt Ref.initSt (e :: es) (by simp) hp atRest_initSt relC_initSt fuel
+    refine ⟨N, ?_⟩
+    have h := hN N (Nat.le_refl _)
+    unfold Ref.runProgram at ho
+    cases hres : Ref.evalBegin fuel (e :: es) 0 { Ref.initSt with trace := [] } with
+    | ok v rs' =>
+      rw [hres] at h
+      simp only [hres] at ho
+      obtain ⟨sf, d, hout⟩ := h
+      rw [hout]; exact ho
+    | err rs' =>
+      rw [hres] at h
+      simp only [hres] at ho
+      obtain ⟨sf, d, hout⟩ := h
+      rw [hout]; exact ho
+    | timeout => simp only [hres] at ho; cases ho
+    | brk l rs' => rw [hres] at h; exact h.elim
+    | cont l rs' => rw [hres] at h; exact h.elim
+
+/-- `(def a (+ 1 2)) (let [b (* a a)] (cond (< b 5) 0 (trace (- b (len "xy")))))` -/
+def demoFc : List Expr :=
+  [.def_ "a" (.call (.sym "+") [.int 1, .int 2]),
+   .let_ false [("b", .call (.sym "*") [.sym "a", .sym "a"])]
+     [.cond [(.call (.sym "<") [.sym "b", .int 5], .int 0)]
+        (.call (.sym "trace") [.call (.sym "-") [.sym "b", .call (.sym "len") [.str "xy"]]])]]
+
+example : FcList demoFc = true := by decide
+
+/-- `(def v [1 (+ 1 1) "s"]) (aset v 0 (len v)) (cons (aget v 0) (rest v))`: arrays by reference -/
+def demoFcArr : List Expr :=
+  [.def_ "v" (.arr [.int 1, .call (.sym "+") [.int 1, .int 1], .str "s"]),
+   .call (.sym "aset") [.sym "v", .int 0, .call (.sym "len") [.sym "v"]],
+   .call (.sym "cons") [.call (.sym "aget") [.sym "v", .int 0], .call (.sym "rest") [.sym "v"]]]
+
+example : FcList demoFcArr = true := by decide
+
+/-- `(def a (+ 1 2)) (trace (* a a))`: value 9, one `trace` call -/
+def demoFcSmall : List Expr :=
+  [.def_ "a" (.call (.sym "+") [.int 1, .int 2]), .call (.sym "trace") [.call (.sym "*") [.sym "a", .sym "a"]]]
+
+example : FcList demoFcSmall = true := by decide
+
+theorem demoFcSmall_ref :
+    refClass (Ref.evalBegin 8 demoFcSmall 0 { Ref.initSt with trace := [] }) = some (some (.int 9#64)) := by
+  simp [demoFcSmall, Ref.evalBegin, Ref.eval, Ref.evalArgs, Ref.applyFn,
+    Ref.define, Ref.setVar, Ref.lookup, Ref.lookupIn, Ref.initSt, Ref.assocSet, Ref.globalNames, coreBuiltins,
+    refClass, List.lookup, prim, isFunction, allInts, intOfLit]
+
+/-- an instance of `compile_correct_on_Fc` with a real outcome (value 9, trace of one call) on
+the reference side; the same text through the harness prints `ok 9 T[9]` -/
+example : ∃ fuel' o, obsOfRef (Ref.runProgram 8 demoFcSmall Ref.initSt).1 = some o
+    ∧ obsOfVM (VM.runText fuel' demoFcSmall VM.initSt).1 = some o := by
+  have h := demoFcSmall_ref
+  cases hres : Ref.evalBegin 8 demoFcSmall 0 { Ref.initSt with trace := [] } with
+  | ok v rs' =>
+    have ho : obsOfRef (Ref.runProgram 8 demoFcSmall Ref.initSt).1 = some (.ok (pr rs'.heap v) rs'.trace) := by
+      unfold Ref.runProgram; simp only [hres]; rfl
+    obtain ⟨f, hf⟩ := compile_correct_on_Fc demoFcSmall (by decide) (by decide) 8 _ ho
+    exact ⟨f, _, ho, hf⟩
+  | err rs' => rw [hres] at h; simp [refClass] at h
+  | timeout => rw [hres] at h; simp [refClass] at h
+  | brk l rs' => rw [hres] at h; simp [refClass] at h
+  | cont l rs' => rw [hres] at h; simp [refClass] at h
+
+/-! ## What is proved of `CompileCorrect`, and what is missing -/
+
+/-- the programs covered by a theorem: every top-level form in Fv, or every top-level form in Fc -/
+def InProvedFragment (p : List Expr) : Prop := FvList p = true ∨ FcList p = true
+
+/-- **The part of `CompileCorrect` that is NOT proved**: programs that are neither in Fv nor in
+Fc — i.e. using calls whose head is not the name of a first-order builtin (user functions,
+`map`/`apply`/`force`, computed heads), `for`/`break`/`continue`, `fn`/`defn`, a `let`
+with a repeated name, an empty `begin`/`newScope`, or (together with calls or array literals) a
+binder that re-uses a builtin name. Held by the 3-way `eval` correspondence on every run, not by a theorem. -/
+def CompileCorrectOutsideProved : Prop := CompileCorrectOn (fun p => ¬ InProvedFragment p)
+
+/-- `compile_correct_partial`: what is proved of the semantic statement.
+
+1. `CompileCorrect` restricted to the programs of the proved fragments (execution half included:
+   generator model + VM model vs reference evaluator, all sizes and nestings, values *and*
+   errors, traces, effects on every scope):
+   * Fv — literals, symbols, `def`, `set`, `begin`, `cond`, `and`, `or`, `newScope`, `letseq`, `let`
+     (distinct names) — `compile_correct_on_Fv`;
+   * Fc — the same with binder names that are not builtin names, plus calls of first-order
+     builtins (arithmetic, comparisons, `not`, lists, arrays, strings, `trace`), operands evaluated
+     in nested runs, and array literals — `compile_correct_on_Fc`;
+   * for the effect-free sub-fragment F0c with explicit fuel on both sides — `compile_correct_F0c`;
+2. the full `CompileCorrect` follows from its restriction to the remaining programs
+   (`CompileCorrectOutsideProved`, the precise unproved remainder);
+3. the layout half for `begin`/`cond`/`and`/`or` as before (and `gen_for_layout` for loops).
+
+MISSING (held by the `eval` correspondence only): `CompileCorrectOutsideProved` — F1
+(`for`/`break`/`continue`), F2 (closures, user calls, varargs, recursion), F3 (self tail calls,
+`map`/`apply`, lazy parameters). -/
 theorem compile_correct_partial :
-    (∀ cs : List (List Instr), (∀ c ∈ cs, c ≠ []) → asmBegin cs = (cs.intersperse [Instr.pop]).flatten)
+    CompileCorrectOn InProvedFragment
+    ∧ (CompileCorrectOutsideProved → CompileCorrect)
+    ∧ (∀ cs : List (List Instr), (∀ c ∈ cs, c ≠ []) → asmBegin cs = (cs.intersperse [Instr.pop]).flatten)
     ∧ (∀ (arms : List (List Instr × List Instr)) (dflt : List Instr) (i : Nat), i < arms.length →
         ∃ pre, asmCond arms dflt = pre ++ asmCond (arms.drop i) dflt)
     ∧ (∀ (isOr : Bool) (cs : List (List Instr)) (i : Nat), i < cs.length →
-        ∃ pre, asmSC isOr cs = pre ++ asmSC isOr (cs.drop i)) :=
-  ⟨gen_begin_pops_between, fun arms dflt i _ => asmCond_suffix arms dflt i, asmSC_suffix⟩
+        ∃ pre, asmSC isOr cs = pre ++ asmSC isOr (cs.drop i)) := by
+  have hin : CompileCorrectOn InProvedFragment := by
+    intro p hp hwf
+    rcases hp with hp | hp
+    · exact compile_correct_on_Fv p hp hwf
+    · exact compile_correct_on_Fc p hp hwf
+  refine ⟨hin, fun hout p hwf => ?_, gen_begin_pops_between,
+    fun arms dflt i _ => asmCond_suffix arms dflt i, asmSC_suffix⟩
+  by_cases h : InProvedFragment p
+  · exact hin p h hwf
+  · exact hout p h hwf
 
 end ZygoVerif.C02
